@@ -83,6 +83,15 @@ pub fn check_text(s: &str, ctx: &mut Ctx, layout: &str, origin: &str) -> Result<
             if info.n_quoted == 0 {
                 ctx.label("no-line-quoted");
             }
+            if info.first_line == Some(1) {
+                ctx.label("error-on-first-line");
+            }
+            if let Some(l) = info.first_line {
+                let n_lines = s.split('\n').count();
+                if l + info.n_quoted.max(1) - 1 >= n_lines.saturating_sub(if s.ends_with('\n') { 1 } else { 0 }) {
+                    ctx.label("error-on-last-line");
+                }
+            }
             ctx.label(&format!("layout:{layout}"));
             if multi || not_first || odd_layout {
                 ctx.nontrivial(digest(&[s.as_bytes()]));
